@@ -216,3 +216,55 @@ def c03_oracle(rep, pinned_only=False):
                                         extra=dict(oracle="c03", entry_name="f"))
     rep.coverage.setdefault("spec_oracle", {})["c03_templates"] = dict(cases=n, failing=bad, exhaustive=True)
     return bad
+
+
+# ---------------------------------------------------------------------------------------
+# C10: set() / option() views
+
+C10_FORMS = ['x', 'a.b', '"quoted"', '""', '"a\\"b"', '"a\\""', '"\\""', '${v}', '"${v} x"', '[[x y]]', '[=[ ]=]',
+             '[[]]', 'a;b', '\;', 'a\\"', '\\"', '\\"x', 'a\\"b', '"a b"', 'ON', '[["]]', '[["x"]]', '"\\"q\\""']
+
+
+def c10_oracle(rep, model, rng, n):
+    cases = []
+    for f in C10_FORMS:
+        cases.append(("set", ["V", f]))
+        cases.append(("set", ["V", f, rng.choice(C10_FORMS)]))
+        cases.append(("option", ["O", f]))
+        cases.append(("option", ["O", '"help"', f]))
+    cases.append(("set", ["V"]))
+    for _ in range(n):
+        k = rng.choice([0, 1, 1, 1, 2, 3])
+        cases.append(("set", ["V"] + [rng.choice(C10_FORMS) for _ in range(k)]))
+    replies = model.call_many([[23, a] for _, a in cases])
+    bad = 0
+    for (cmd, args), rp in zip(cases, replies):
+        text = DOC + f"{cmd}({' '.join(args)})\n"
+        c, r = _impl_docs(text)
+        rep.count_case(("c10-oracle", text))
+        rep.dist("spec-oracle:c10_" + cmd)
+        sv, ov = rp
+        if cmd == "set":
+            if not sv:
+                continue
+            name, ty, val = sv[0]
+            exp = dict(name=core.d_str(name), type={1: "STRING", 2: "LIST", 3: "UNSET"}[ty],
+                       value=core.d_str(val[0]) if val else None)
+        else:
+            if not ov:
+                continue
+            name, hlp, dflt = ov[0]
+            exp = dict(name=core.d_str(name), help_text=core.d_str(hlp), value=core.d_str(dflt))
+        if r["status"] != "ok" or not r["docs"]:
+            act = dict(status=r["status"], exc=r["exc"])
+        else:
+            o = _obj_view(r["docs"][-1])
+            act = {k: o.get(k) for k in exp}
+            if cmd == "option" and act.get("value") is None:
+                act["value"] = "OFF"        # rendered as OFF when omitted
+        if exp != act:
+            bad += 1
+            if bad <= 3:
+                _report(rep, "Spec.EntrySpec.set_view / option_view (C10)", text, exp, act)
+    rep.coverage.setdefault("spec_oracle", {})["c10"] = dict(cases=len(cases), failing=bad)
+    return bad
